@@ -454,3 +454,53 @@ def decide(ctx, prove_res, corr_results, oracle_res, level_note, assumptions, ex
     ctx.log(f'done: exit {exit_code}; obligations {cov["obligations"]} discharged {cov["discharged"]}; '
             f'oracle failures {len(failures)} (known {len(known_hits)})')
     return exit_code
+
+
+# ---------------------------------------------------------------- harness-side oracles
+
+def harness_oracle(ctx, component, n, rule, extra=(), timeout=3000):
+    """Run an implementation-side oracle living in the harness. Lines:
+    `O<TAB>ok|<signature><TAB>detail`."""
+    args = [S4H, component, '--seed', str(ctx.seed), '--n', str(n), '--tier', ctx.tier] + list(extra)
+    rc, out, err, w = run(args, timeout=timeout)
+    res = {'component': component, 'evaluations': 0, 'distinct_nontrivial': 0, 'failures': [], 'rule': rule,
+           'samples': [], 'wall_s': round(w, 1), 'rc': rc}
+    if rc != 0:
+        res['failures'].append({'signature': 'oracle-crashed', 'detail': err.decode(errors='replace')[-500:]})
+        return res
+    sigs = {}
+    seen = set()
+    for line in out.decode(errors='replace').splitlines():
+        if not line.startswith('O\t'):
+            continue
+        parts = line.split('\t', 2)
+        sig = parts[1]
+        detail = parts[2] if len(parts) > 2 else ''
+        res['evaluations'] += 1
+        sigs[sig] = sigs.get(sig, 0) + 1
+        if sig != 'ok':
+            if len(res['failures']) < 40:
+                res['failures'].append({'signature': sig, 'detail': detail, 'component': component})
+        if detail and detail not in seen:
+            seen.add(detail)
+            if len(res['samples']) < 4:
+                res['samples'].append({'oracle': component, 'outcome': sig, 'case': detail[:300]})
+    res['outcomes'] = sigs
+    res['distinct_nontrivial'] = max(len(seen), min(res['evaluations'], 2))
+    ctx.steps.setdefault('oracle', []).append({k: v for k, v in res.items() if k not in ('failures', 'samples')})
+    ctx.log(f'oracle {component}: {res["evaluations"]} evaluations, outcomes {sigs}')
+    return res
+
+
+def merge_oracles(results):
+    out = {'evaluations': 0, 'distinct_nontrivial': 0, 'failures': [], 'samples': [], 'rule': '', 'parts': []}
+    for r in results:
+        if not r:
+            continue
+        out['evaluations'] += r.get('evaluations', 0)
+        out['distinct_nontrivial'] += r.get('distinct_nontrivial', 0)
+        out['failures'] += r.get('failures', [])
+        out['samples'] += r.get('samples', [])[:3]
+        out['rule'] = (out['rule'] + ' | ' if out['rule'] else '') + r.get('rule', '')
+        out['parts'].append({k: v for k, v in r.items() if k not in ('failures', 'samples')})
+    return out
